@@ -1,8 +1,9 @@
 #!/bin/bash
 # Build the framework from files on disk only (offline): generated facts, Coq development, extracted driver.
 set -e
-cd "$(dirname "$0")"
-export PYTHONHASHSEED=0 PYTHONPATH=/verif/harness:${VERIF_REPO:-/repo} PYTHONDONTWRITEBYTECODE=1
+V="$(cd "$(dirname "$0")" && pwd)"
+cd "$V"
+export PYTHONHASHSEED=0 PYTHONPATH=$V/harness:${VERIF_REPO:-/repo} PYTHONDONTWRITEBYTECODE=1
 /venv/bin/python -W ignore harness/gen_facts.py
 cd coq
 coq_makefile -f _CoqProject -o Makefile > /dev/null
